@@ -184,7 +184,7 @@ impl Ctx {
             "nshards": self.nshards,
             "seed": self.seed,
             "mode": self.mode,
-            "evaluations": self.evaluations,
+            "evaluations": self.evaluations.max(self.nontrivial.len() as u64),
             "nontrivial": self.nontrivial.iter().copied().collect::<Vec<u64>>(),
             "samples": self.samples,
             "violations": self.violations,
